@@ -193,12 +193,13 @@ func init() {
 // The client decodes the API server's answer into the object that is handed to Patch/Update. The
 // phase reconciler probes, and reports in status, the object its reconcile function returns. Two
 // structural consequences:
-//   (a) the object the patcher applies with is the object the reconcile function goes on with —
-//       otherwise the freshly written generation/resourceVersion is thrown away and a stale copy is
-//       probed (a phase passes on the pre-patch state of its object);
-//   (b) between the adoption bookkeeping the caller did on that object (owner references, revision)
-//       and the apply, the patcher does not overwrite it (DeepCopyInto, a reader Get, Set*): the
-//       apply would carry the pre-handover owner list.
+//
+//	(a) the object the patcher applies with is the object the reconcile function goes on with —
+//	    otherwise the freshly written generation/resourceVersion is thrown away and a stale copy is
+//	    probed (a phase passes on the pre-patch state of its object);
+//	(b) between the adoption bookkeeping the caller did on that object (owner references, revision)
+//	    and the apply, the patcher does not overwrite it (DeepCopyInto, a reader Get, Set*): the
+//	    apply would carry the pre-handover owner list.
 func appliedObjectRule(c *Ctx) {
 	p := c.P
 	n := 0
@@ -625,13 +626,14 @@ func init() {
 //
 // Every controller runs its sub-reconciler list and then persists status. Two structural
 // obligations on the controller's Reconcile:
-//   (1) a return that can follow a sub-reconciler call and may carry a nil error either returns the
-//       error of the status update or is preceded by it — what the sub-reconcilers decided (Invalid,
-//       Available, controllerOf, requeue reasons) exists only in memory until then;
-//   (2) a return with a possibly-nil error *before* the list runs is justified by deletion/archival
-//       handling, a foreign class, or NotFound — not by the pause flag or anything else: the
-//       sub-reconcilers handle pause themselves and are what refreshes Available/controllerOf for the
-//       object's current generation.
+//
+//	(1) a return that can follow a sub-reconciler call and may carry a nil error either returns the
+//	    error of the status update or is preceded by it — what the sub-reconcilers decided (Invalid,
+//	    Available, controllerOf, requeue reasons) exists only in memory until then;
+//	(2) a return with a possibly-nil error *before* the list runs is justified by deletion/archival
+//	    handling, a foreign class, or NotFound — not by the pause flag or anything else: the
+//	    sub-reconcilers handle pause themselves and are what refreshes Available/controllerOf for the
+//	    object's current generation.
 func controllerLoopRule(c *Ctx) {
 	p := c.P
 	n := 0
